@@ -544,6 +544,25 @@ def run(model: Model, rep: Report, tier: str) -> None:
     elif oki is False:
         rep.refuted("R14.2", construct(f, "filters"), "intervene(I): " + detail, loc(f))
 
+    # ---------------------------------------------------------------- R14.2 nodes on directed paths (reference comparison)
+    from ..refcmp import load_reference, run_table
+    load_reference(model, "yvref.c14", "c14_ref.py")
+    VS = ("set", ("cls", "y0.dsl.Variable"))
+
+    def _mk14(model_, prims=()):
+        return lambda: Evaluator(model_, primitives=set(prims))
+    table = [
+        ("R14.2", "y0.graph._get_nodes_in_directed_paths_dag", "nodes_on_directed_paths_dag", {"graph": "nx.DiGraph", "sources": VS, "targets": VS}, (),
+         "directed-paths-dag", "v is on a path s ~> v ~> t for some pair; endpoints count only for pairs that are connected"),
+        ("R14.2", "y0.graph._get_nodes_in_directed_paths_cyclic", "nodes_on_directed_paths_cyclic", {"graph": "nx.DiGraph", "sources": VS, "targets": VS}, (),
+         "directed-paths-cyclic", "all nodes of all simple directed paths from a source to a target"),
+    ]
+    present = [row for row in table if model.has_func(row[1])]
+    if present:
+        run_table(model, rep, present, "yvref.c14", _mk14, SetAlg(), construct=construct, loc=loc)
+    else:
+        rep.unknown("R14.2", "y0.graph:get_nodes_in_directed_paths#definition", "the two path routines are no longer separate functions; not compared", "src/y0/graph.py", required=False)
+
     # ---------------------------------------------------------------- R14.3 receiver untouched
     eff = Effects(model)
     ops = ["subgraph", "remove_in_edges", "remove_out_edges", "remove_nodes_from", "intervene", "ancestors_inclusive",
